@@ -57,6 +57,10 @@ def observe_fields(om, named):
             fl = ("members", "sub_org_of", "part_of", "has_part", "wholly_owned_by")
         elif isinstance(o, om.Person):
             fl = ("works_for", "member_of")
+        elif isinstance(o, getattr(om, "VOrg", ())):
+            fl = ("members",)
+        elif isinstance(o, getattr(om, "VPerson", ())):
+            fl = ("member_of",)
         else:
             fl = ("head_of",)
         for f in fl:
